@@ -104,7 +104,9 @@ func (t *translator) call(c *ast.CallExpr, recv string) []string {
 
 func (t *translator) write(lhs ast.Expr, recv string) []string {
 	switch s := sel(lhs); s {
-	case recv + ".shapes", recv + ".shapes[]", recv + ".nextID":
+	case recv + ".shapes", recv + ".shapes[]", recv + ".nextID",
+		recv + ".pendingAdditionsPos", recv + ".pendingRemovals":
+		// mutator-side bookkeeping (Add / Reset): never touched by a query outside the mutex
 		return []string{".writeShapes"}
 	case recv + ".cellMap", recv + ".cells":
 		return []string{".writeCells"}
